@@ -990,6 +990,82 @@ impl<'a> Harness<'a> {
 		}
 	}
 
+	/// Mineable weight at the boundary, with a pool entry that spends several outputs of another pool
+	/// entry (a consolidation of an unconfirmed fan-out): the whole pool, aggregated, is lighter than the
+	/// entries taken one by one (matched spend pairs cut through), so "does the pool fit into a block" and
+	/// "do the transactions offered fit" are different questions near the limit. Fillers of weight 25 then
+	/// walk the pool weight across the limit, and the mineable set is assembled (I5) after every step.
+	fn op_weight_boundary(&mut self) {
+		let limit = self.cfg.mineable_max_weight;
+		if limit > 1000 {
+			return;
+		}
+		let room = limit.saturating_sub(weight_iok(0, 1, 1));
+		let cur: u64 = self.pool.read().txpool.all_transactions().iter().map(tx_weight).sum();
+		if cur > room {
+			self.run.count("weight_boundary.skipped_pool_already_above_the_limit", 1);
+			return;
+		}
+		let v = self.view();
+		let free = self.free_coins(&v);
+		let coin = match free.first() {
+			Some(c) => c.clone(),
+			None => return,
+		};
+		let (f1, s1) = self.good_fee(1, 3, coin.value);
+		let (parent, outs) = match self.mk_tx(&[coin], 3, f1, s1, None, 0) {
+			Some(x) => x,
+			None => return,
+		};
+		let total: u64 = outs.iter().map(|c| c.value).sum();
+		let (f2, s2) = self.good_fee(3, 1, total);
+		let (child, _) = match self.mk_tx(&outs, 1, f2, s2, None, 0) {
+			Some(x) => x,
+			None => return,
+		};
+		self.run.count("weight_boundary.setups", 1);
+		for (tx, d) in [(parent, "fan-out 1 -> 3"), (child, "consolidation of the 3 unconfirmed outputs")] {
+			if self.stop {
+				return;
+			}
+			let src = self.rand_src();
+			self.submit(Submission { kind: "valid", eff: tx.clone(), tx, label: Label::Valid, stem: false, src, desc: format!("weight boundary: {}", d) });
+			if !self.stop {
+				self.mine(false);
+			}
+		}
+		for _ in 0..14 {
+			if self.stop {
+				return;
+			}
+			let (txs, size) = {
+				let p = self.pool.read();
+				(p.txpool.all_transactions(), p.txpool.size())
+			};
+			let w: u64 = txs.iter().map(tx_weight).sum();
+			if w > room + 120 || size + 1 > self.cfg.max_pool_size {
+				break;
+			}
+			let v = self.view();
+			let free = self.free_coins(&v);
+			let coin = match free.first() {
+				Some(c) => c.clone(),
+				None => break,
+			};
+			let fee = self.min_fee(1, 1) * 2;
+			let (tx, _) = match self.mk_tx(&[coin], 1, fee, 0, None, 0) {
+				Some(x) => x,
+				None => break,
+			};
+			let src = self.rand_src();
+			self.submit(Submission { kind: "valid", eff: tx.clone(), tx, label: Label::Valid, stem: false, src, desc: "weight boundary: filler 1 -> 1".into() });
+			if !self.stop {
+				self.run.count("weight_boundary.mineable_sets_assembled", 1);
+				self.mine(false);
+			}
+		}
+	}
+
 	fn op_conflict(&mut self) {
 		let v = self.view();
 		let mut cands = vec![];
@@ -2194,10 +2270,17 @@ impl<'a> Harness<'a> {
 			if self.fluff_epoch { "sequences.fluff_epoch" } else { "sequences.stem_epoch_no_relay" },
 			1,
 		);
+		let boundary_at = 5 + self.prng.usize_below(n_target.max(6) - 5);
+		let mut boundary_done = false;
 		while self.n_ops < n_target && !self.stop {
 			if Instant::now() > self.shared.deadline {
 				self.run.count("sequences_truncated_by_deadline", 1);
 				break;
+			}
+			if !boundary_done && self.n_ops >= boundary_at {
+				boundary_done = true;
+				self.op_weight_boundary();
+				continue;
 			}
 			if self.force_mine {
 				self.force_mine = false;
@@ -2393,6 +2476,7 @@ fn main() {
 		};
 		run.require(&format!("op.{}", k), c(&format!("op.{}", k)), min);
 	}
+	run.require("weight_boundary.mineable_sets_assembled", c("weight_boundary.mineable_sets_assembled"), 15 * scale);
 	run.require("admitted", c("admitted"), 300 * scale);
 	run.require("admitted_to_stempool", c("admitted_to_stempool"), 20 * scale);
 	run.require("mined_blocks_accepted", c("mined_blocks_accepted"), 25 * scale);
